@@ -113,6 +113,18 @@ CHECKS = {
         "assumptions": ["reference interpreter fk.Ref", "recording stream doubles (sk.RecStream) implement the Stream contract", "rapid v1.3.0; go1.26.8 testing/synctest for the goroutine-backed combinators"],
         "jobs": [{"pkg": "c08fault", "kinds": ["fault-enum", "fault-case", "fault-enum-bg", "fault-case-bg"], "scale_thorough": 10, "shards_thorough": 16, "replay_reps": 20}],
     },
+    "C09": {
+        "level": "fault_enumeration",
+        "level_text": ("For each generated input/parameters, EVERY consumer stop point (close after 0..outputs+1 responses, or read to the end) x EVERY single fault position/kind is executed for every function that takes "
+                       "ownership of a stream (all combinators and reducers, SampleStream, and in bubbles Batch, Merge with 1..5 inputs, MapStream); every recording source then must show exactly one Close, no Next after Close "
+                       "and no overlapping calls, including Flatten's obtained inner streams and all Join/Merge arguments"),
+        "level_note": "Inner enumeration (stop point x fault) is exhaustive per generated input; outer choice is random (rapid). Trusts the call log of sk.RecStream (atomic in-call flag, mutex-protected counters).",
+        "technique": "fault and stop-point enumeration over rapid-generated inputs; call-log invariant on instrumented sources",
+        "rule": ("kind own-enum(-bg) = one generated base case; kind own-case(-bg) = one (base, stop point, fault) execution. non-trivial = the consumer stopped strictly inside the sequence (0 < j, not at End) or a fault was "
+                 "actually delivered, i.e. some owned stream is still open when the consumer walks away; distinct = distinct case JSON"),
+        "assumptions": ["sk.RecStream call log", "rapid v1.3.0; go1.26.8 testing/synctest"],
+        "jobs": [{"pkg": "c09own", "kinds": ["own-enum", "own-case", "own-enum-bg", "own-case-bg"], "scale_thorough": 10, "shards_thorough": 16, "replay_reps": 20}],
+    },
     "C04": {
         "level": "exploration",
         "level_text": ("Model-based property testing: thousands of generated operation histories (macro-ops reach wrapped, full, "
